@@ -14,11 +14,11 @@ Definition ex_handler : handler :=
 Definition ex_inputs : list input :=
   [IConsume false ex_handler; ICoord true; IJoin JUnknownMember; IJoin (JOk 7 3 false); ISync (SOk [0; 1]);
    IHeartbeat HOk; IFetch true; IFetch true; ISetup;
-   IClaimGo 0 true; IClaimGo 1 true; IDeliver 0; IDeliver 0; IDeliver 0; IDeliver 1; IDeliver 1;
+   IClaimGo 0 true true; IClaimGo 1 true true; IDeliver 0; IDeliver 0; IDeliver 0; IDeliver 1; IDeliver 1;
    IHeartbeat HRebalance; IClaimReturn 1; IClaimReturn 0; IRelease; ICleanup; ICommit false; ICommit true; IHbStop;
    IProduce 0;
    IConsume false ex_handler; IJoin (JOk 7 4 true); ISync (SOk [0; 1]); IFetch true; IFetch true; ISetup;
-   IClaimGo 1 true; IClaimGo 0 true; IDeliver 0; IDeliver 1; ICancel; IClaimReturn 0; IClaimReturn 1; IRelease; ICleanup; ICommit true; IHbStop;
+   IClaimGo 1 true true; IClaimGo 0 true true; IDeliver 0; IDeliver 1; ICancel; IClaimReturn 0; IClaimReturn 1; IRelease; ICleanup; ICommit true; IHbStop;
    IClose; ILeave LOk].
 Definition ex_store : list (part * Z) := [(0, 2)].
 Definition ex_log : list (part * (Z * Z)) := [(0, (0, 6)); (1, (0, 3))].
@@ -44,8 +44,13 @@ Example ex_noskip_nonvacuous :
 Proof. vm_compute. repeat split. Qed.
 (* c07_claim_start: a ConsumeClaim does start in the state reached before the 10th input *)
 Example ex_claim_start :
-  In (EvClaimStart 0 2) (snd (step ex_cfg (final ex_cfg (init_world ex_store ex_log) (firstn 9 ex_inputs)) (IClaimGo 0 true))).
+  In (EvClaimStart 0 2) (snd (step ex_cfg (final ex_cfg (init_world ex_store ex_log) (firstn 9 ex_inputs)) (IClaimGo 0 true true))).
 Proof. vm_compute. auto. Qed.
+(* a transient failure of the first ConsumePartition (a1 = false) with a valid committed offset: no fallback to Initial,
+   no ConsumeClaim; the claim goroutine ends the session *)
+Example ex_transient_no_fallback :
+  snd (step ex_cfg (final ex_cfg (init_world ex_store ex_log) (firstn 9 ex_inputs)) (IClaimGo 0 false true)) = [EvClaimFail 0; EvEnd CauseClaim].
+Proof. vm_compute. reflexivity. Qed.
 (* c07_session_ends: a state with phase PRunning is reachable *)
 Example ex_running : w_phase (final ex_cfg (init_world ex_store ex_log) (firstn 16 ex_inputs)) = PRunning.
 Proof. vm_compute. reflexivity. Qed.
